@@ -31,6 +31,11 @@ def unboundedLoops : List String := [
   "gtfs.Stop.Root: for {}",
   "journal.DirectoryGtfsrtSource.Next: for {}"]
 
+/-- the functions these loops are in -/
+def unboundedLoopFuncs : List String := [
+  "gtfs.Stop.Root",
+  "journal.DirectoryGtfsrtSource.Next"]
+
 /-- every expression that can panic on some value: index/slice on non-maps, explicit dereference, type assertion, panic call -/
 def panicSites : List String := [
   "csv.OptionalColumn.Read: index c.f.currentRow.cells[c.i]  [unguarded: csv: index []string]",
